@@ -405,6 +405,56 @@ def lifecycle_case(seed, role="client", cause="peer-disconnect", consumer=True):
             port = free_port()                      # nobody listens there
             sc.node = Diameter(config=sc.config(port))
             sc.node.start()
+        elif cause == "context-retry":
+            # the library's own way of starting a node: `with node.context():` keeps calling start() on the same object
+            # (every 5 s while Closed) until the connection comes up.  The first attempt is refused; the peer appears later.
+            from bromelia.setup import Diameter
+            import contextlib, io
+            sc.role = role = "client"
+            port = free_port()
+            sc.node = Diameter(config=sc.config(port))
+            inside, leave, ctx_done, ctx_err = threading.Event(), threading.Event(), threading.Event(), []
+
+            def run_context():
+                try:
+                    with contextlib.redirect_stdout(io.StringIO()):
+                        with sc.node.context():
+                            inside.set()
+                            leave.wait(120)
+                except BaseException as ex:
+                    ctx_err.append(repr(ex))
+                finally:
+                    ctx_done.set()
+            threading.Thread(target=run_context, daemon=True, name="context-runner").start()
+            time.sleep(rng.choice([0.3, 1.0, 2.5]))
+            if sc.node.get_current_state() != "Closed":
+                problems.append("state %r after the refused first attempt" % (sc.node.get_current_state(),))
+            left = [t.name for t in threading.enumerate() if t not in sc.threads_before and t.is_alive() and not t.daemon]
+            if left:
+                problems.append("threads alive between the attempts: %s" % left)
+            sc.lsock = socket.socket()
+            sc.lsock.setsockopt(socket.SOL_SOCKET, socket.SO_REUSEADDR, 1)
+            sc.lsock.bind(("127.0.0.1", port))
+            sc.lsock.listen()
+            sc.lsock.settimeout(sc.deadline)
+            try:
+                sc.psock, _ = sc.lsock.accept()
+            except socket.timeout:
+                raise Timeout("context() never retried the refused connection%s" % (": " + ctx_err[0] if ctx_err else ""))
+            (cer,), _ = sc.recv_messages(1)
+            sc.psock.sendall(R.encode(N.cea(hbh=cer.hbh, e2e=cer.e2e, apps=[16777251])))
+            sc.wait(lambda: sc.node.is_open(), "open after the retry")
+            if not inside.wait(30):
+                problems.append("context() did not hand the open node to its body")
+            leave.set()                                     # leaving the with-block closes the node: one DPR, then our DPA
+            (dpr,), _ = sc.recv_messages(1)
+            if N.name_of(dpr) != "DPR":
+                problems.append("leaving context() sent %s, not a DPR" % N.name_of(dpr))
+            sc.psock.sendall(R.encode(N.dpa(hbh=dpr.hbh, e2e=dpr.e2e)))
+            if not ctx_done.wait(60):
+                problems.append("context() never returned after its body ended")
+            if ctx_err:
+                problems.append("context() raised %s" % ctx_err[0])
         elif cause == "pre-ce-disconnect":
             # server only: the peer connects and leaves before sending its CER
             from bromelia.setup import Diameter
@@ -430,7 +480,7 @@ def lifecycle_case(seed, role="client", cause="peer-disconnect", consumer=True):
         else:
             sc.open()
         returned = threading.Event()
-        if cause in ("refused", "pre-ce-disconnect"):
+        if cause in ("refused", "pre-ce-disconnect", "context-retry"):
             consumer = False
         if consumer and cause != "refused":
             def blocked():
